@@ -156,8 +156,14 @@ def ival(d):
     return d if type(d) is int else BAD
 
 
+# what a complex event carries is up to the phenomenon's datagen (`Any`): not necessarily JSON, always picklable here
+import datetime as _dt
+PAYLOADS = [None, 5, {"k": [1, 2]}, {1, 2, 3}, b"\x01\x02", _dt.datetime(2024, 1, 2, 3, 4, 5), (1, (2, 3)), frozenset("ab"),
+            float("nan"), "text", _dt.timedelta(seconds=3), complex(1, 2)]
+
+
 def mk_event(eid, phen, patt):
-    return BoboEventComplex(event_id="e%d" % eid, timestamp=eid, data=None,
+    return BoboEventComplex(event_id="e%d" % eid, timestamp=eid, data=PAYLOADS[eid % len(PAYLOADS)],
                             phenomenon_name="ph%d" % phen, pattern_name="pt%d" % patt,
                             history=BoboHistory({}))
 
